@@ -344,7 +344,8 @@ func c08Stages(c *wk.Case, srcN int64, failAt int64, k int64, expensive bool) *r
 		switch r.IntN(9) {
 		case 8:
 			// the pipeline so far as the second list of cross: the first pass over it is all a consumer behind needs
-			cur = ref.Method(ref.ListN(ref.Int(0), ref.Int(1)), "cross", cur, ref.Clo([]string{b, a}, ref.Bin("+", ref.Bin("*", id(b), ref.Int(1000000000)), id(a))))
+			// (the values stay those of the list: the demand of multiUse consumers is compared by largest value)
+			cur = ref.Method(ref.ListN(ref.Int(0), ref.Int(1)), "cross", cur, ref.Clo([]string{b, a}, ref.Bin("+", ref.Bin("-", id(b), id(b)), id(a))))
 		case 6:
 			// concatenation with an operand that is already in memory (literal, evaluated list): the lazy side stays lazy
 			lit := []*ref.Node{ref.ListN(ref.Int(-1), ref.Int(-2)), ref.ListN(ref.Int(-7)), ref.Method(ref.ListN(ref.Int(-1), ref.Int(-2), ref.Int(-3)), "eval"), ref.ListN()}[r.IntN(4)]
